@@ -14,7 +14,7 @@ returns) and every `depends_on` is a map (true of every Go map).
 namespace CV.Sel
 
 /-- the receiver is a well-formed project: a partition, and every `depends_on` has distinct keys -/
-def Good (p : Proj) : Prop := Partition p ∧ SvcWF p
+def Good (p : Proj) : Prop := Partition p ∧ SvcWF p ∧ NamesOK p
 
 /-! ## profiles -/
 
@@ -67,32 +67,32 @@ theorem no_dangling_after_disable {p : Proj} (h : Partition p) (names : List Str
 /-! ## selecting -/
 
 /-- the walk of `ForEachService` never exhausts the model's fuel: the fuel is a modelling device, not behaviour -/
-theorem select_never_out_of_fuel {p : Proj} (h : Partition p) (names : List String) (pol : Policy) :
+theorem select_never_out_of_fuel {p : Proj} (h : Partition p) (nk : NamesOK p) (names : List String) (pol : Policy) :
     withSelectedServices p names pol ≠ .fuel := by
   unfold withSelectedServices
   split
   · simp
-  · have := forEachService_fuel h.1 names pol
+  · have := forEachService_fuel h.1 nk.services names pol
     cases hw : forEachService p names pol <;> simp_all
 
 /-- `WithSelectedServices names policy` keeps exactly the named services plus their transitive dependencies
 (or dependents, or nothing more), i.e. the least set containing the names and closed under the policy's edges -/
-theorem selected_eq_closure {p : Proj} (h : Partition p) {names : List String} (hn : names ≠ []) {pol : Policy}
+theorem selected_eq_closure {p : Proj} (h : Partition p) (nk : NamesOK p) {names : List String} (hn : names ≠ []) {pol : Policy}
     {q : Proj} (hq : withSelectedServices p names pol = .ok q) (x : String) :
     x ∈ keys q.services ↔ Reach p.services pol names x := by
   cases hw : forEachService p names pol with
   | ok set =>
     rw [withSelectedServices_ok h.1 hn hw] at hq
     cases hq
-    have hsub := forEachService_subset h.1 hn hw
-    rw [← forEachService_reach h.1 hn hw]
+    have hsub := forEachService_subset h.1 nk.services hn hw
+    rw [← forEachService_reach h.1 nk.services hn hw]
     show x ∈ keys (selectedPruned set p.services) ↔ _
     rw [mem_keys_selectedPruned]
     exact ⟨fun a => a.2, fun a => ⟨hsub x a, a⟩⟩
   | noSuchService =>
     have : names.isEmpty = false := by cases names <;> simp_all
     simp [withSelectedServices, hw, this] at hq
-  | outOfFuel => exact absurd hw (forEachService_fuel h.1 names pol)
+  | outOfFuel => exact absurd hw (forEachService_fuel h.1 nk.services names pol)
 
 /-- the executable successor list of the spec is the edge relation -/
 theorem mem_succ_iff {svcs : AL Svc} (nd : (keys svcs).Nodup) (pol : Policy) (x y : String) :
@@ -157,19 +157,19 @@ previously disabled services untouched), every service is conserved, resources a
 theorem select_exact {p : Proj} (g : Good p) {names : List String} (hn : names ≠ []) {pol : Policy}
     {q : Proj} (hq : withSelectedServices p names pol = .ok q) :
     ∃ S, (∀ x, x ∈ S ↔ Reach p.services pol names x) ∧ SelectSpec p S q ∧ Conserved p q ∧ sameResources p q := by
-  obtain ⟨h, w⟩ := g
+  obtain ⟨h, w, nk⟩ := g
   cases hw : forEachService p names pol with
   | ok set =>
     rw [withSelectedServices_ok h.1 hn hw] at hq
     cases hq
-    have hsub := forEachService_subset h.1 hn hw
-    exact ⟨set, forEachService_reach h.1 hn hw, selectResult_spec h hsub,
+    have hsub := forEachService_subset h.1 nk.services hn hw
+    exact ⟨set, forEachService_reach h.1 nk.services hn hw, selectResult_spec h hsub,
       conserved_of_carried (selectResult_partition h hsub) (selectResult_carried h hsub w),
       withServicesDisabled_resources p _⟩
   | noSuchService =>
     have : names.isEmpty = false := by cases names <;> simp_all
     simp [withSelectedServices, hw, this] at hq
-  | outOfFuel => exact absurd hw (forEachService_fuel h.1 names pol)
+  | outOfFuel => exact absurd hw (forEachService_fuel h.1 nk.services names pol)
 
 /-- `WithSelectedServices` fails ("no such service") exactly when a requested name is not an enabled service or a
 service of the closure has a required dependency that is not an enabled service (only `IncludeDependencies` looks) -/
@@ -177,7 +177,7 @@ theorem select_error_iff {p : Proj} (g : Good p) {names : List String} (hn : nam
     withSelectedServices p names pol = .err ↔
       (∃ n ∈ names, n ∉ keys p.services) ∨
       ∃ x, Reach p.services pol names x ∧ MissingRequired p.services pol x := by
-  obtain ⟨h, w⟩ := g
+  obtain ⟨h, w, nk⟩ := g
   have ne : names.isEmpty = false := by cases names <;> simp_all
   have wf : ∀ kv ∈ p.services, (keys kv.2.deps).Nodup := fun kv hkv => w kv (List.mem_append_left _ hkv)
   cases hw : forEachService p names pol with
@@ -190,11 +190,11 @@ theorem select_error_iff {p : Proj} (g : Good p) {names : List String} (hn : nam
     · intro c; cases c
     · rintro (⟨n, hnm, hnk⟩ | ⟨x, hx, hm⟩)
       · exact absurd (List.any_eq_true.2 ⟨n, hnm, (missingFatal_top _ n).2 hnk⟩) C.1
-      · rcases C.2 x ((forEachService_reach h.1 hn hw x).2 hx) with a | a
+      · rcases C.2 x ((forEachService_reach h.1 nk.services hn hw x).2 hx) with a | a
         · cases a
         · exact absurd hm a
   | noSuchService =>
-    have E := walk_err h.1 pol _ _ _ _ hw
+    have E := walk_err h.1 nk.services pol _ _ _ _ hw
     simp only [ne, Bool.false_eq_true, if_false] at E
     constructor
     · intro _
@@ -204,7 +204,7 @@ theorem select_error_iff {p : Proj} (g : Good p) {names : List String} (hn : nam
       · exact .inr a
     · intro _
       simp [withSelectedServices, hw, ne]
-  | outOfFuel => exact absurd hw (forEachService_fuel h.1 names pol)
+  | outOfFuel => exact absurd hw (forEachService_fuel h.1 nk.services names pol)
 
 /-- the outcome the oracle expects (`selectWanted`) is the outcome of the model: rejected by one iff rejected by the other -/
 theorem selectWanted_none_iff {p : Proj} (g : Good p) {names : List String} (hn : names ≠ []) (pol : Policy) :
@@ -235,14 +235,14 @@ theorem selectWanted_none_iff {p : Proj} (g : Good p) {names : List String} (hn 
 
 /-- the disabled half of a successful selection (after the `fix:` commit): a non-selected service is the old service
 minus its dependencies on the non-selected services whose name is not greater than its own -/
-theorem select_moved_exact {p : Proj} (h : Partition p) {names : List String} (hn : names ≠ []) {pol : Policy}
+theorem select_moved_exact {p : Proj} (h : Partition p) (nk : NamesOK p) {names : List String} (hn : names ≠ []) {pol : Policy}
     {q : Proj} (hq : withSelectedServices p names pol = .ok q) (S : List String)
     (hS : ∀ x, x ∈ S ↔ Reach p.services pol names x) : SelectMovedSpec p S q := by
   cases hw : forEachService p names pol with
   | ok set =>
     rw [withSelectedServices_ok h.1 hn hw] at hq
     cases hq
-    have same : ∀ x, x ∈ set ↔ x ∈ S := fun x => by rw [forEachService_reach h.1 hn hw, hS]
+    have same : ∀ x, x ∈ set ↔ x ∈ S := fun x => by rw [forEachService_reach h.1 nk.services hn hw, hS]
     intro kv hkv hx
     have := selectResult_movedSpec h set kv hkv hx
     cases hs : lookup kv.1 p.services with
@@ -257,7 +257,7 @@ theorem select_moved_exact {p : Proj} (h : Partition p) {names : List String} (h
   | noSuchService =>
     have : names.isEmpty = false := by cases names <;> simp_all
     simp [withSelectedServices, hw, this] at hq
-  | outOfFuel => exact absurd hw (forEachService_fuel h.1 names pol)
+  | outOfFuel => exact absurd hw (forEachService_fuel h.1 nk.services names pol)
 
 /-- after selecting, every dependency of a remaining service is a remaining service -/
 theorem no_dangling_after_select {p : Proj} (g : Good p) {names : List String} (hn : names ≠ []) {pol : Policy}
@@ -281,7 +281,9 @@ theorem prune_exact (p : Proj) : PruneSpec p (withoutUnnecessaryResources p) :=
 still known exactly once (enabled or disabled), with its content carried over and only `depends_on` possibly smaller -/
 theorem partition_step {p q : Proj} (g : Good p) (o : Op) (hq : applyOp p o = .ok q) :
     Good q ∧ Carried p q := by
-  obtain ⟨h, w⟩ := g
+  obtain ⟨h, w, nk⟩ := g
+  suffices H : (Partition q ∧ SvcWF q) ∧ Carried p q from
+    ⟨⟨H.1.1, H.1.2, namesOK_of_carried nk H.1.1 H.2⟩, H.2⟩
   cases o with
   | profiles P =>
     cases hq
@@ -308,12 +310,12 @@ theorem partition_step {p q : Proj} (g : Good p) (o : Op) (hq : applyOp p o = .o
         have e := withSelectedServices_ok h.1 hn hw
         simp only [applyOp] at hq
         rw [e] at hq; cases hq
-        have hsub := forEachService_subset h.1 hn hw
+        have hsub := forEachService_subset h.1 nk.services hn hw
         exact ⟨⟨selectResult_partition h hsub, selectResult_svcWF h w set⟩, selectResult_carried h hsub w⟩
       | noSuchService =>
         have : ns.isEmpty = false := by cases ns <;> simp_all
         simp [applyOp, withSelectedServices, hw, this] at hq
-      | outOfFuel => exact absurd hw (forEachService_fuel h.1 ns pol)
+      | outOfFuel => exact absurd hw (forEachService_fuel h.1 nk.services ns pol)
   | prune =>
     cases hq
     exact ⟨⟨h, w⟩, Carried.refl w⟩
@@ -323,7 +325,7 @@ project unchanged), the enabled and disabled sets stay disjoint sets and every s
 theorem partition_inv {p : Proj} (g : Good p) (ops : List Op) :
     Good (run p ops) ∧ Carried p (run p ops) := by
   induction ops generalizing p with
-  | nil => exact ⟨g, Carried.refl g.2⟩
+  | nil => exact ⟨g, Carried.refl g.2.1⟩
   | cons o os ih =>
     rw [run_cons]
     cases ho : applyOp p o with
@@ -339,7 +341,7 @@ theorem history_conserved {p : Proj} (g : Good p) (ops : List Op) : Conserved p 
   conserved_of_carried (partition_inv g ops).1.1 (partition_inv g ops).2
 
 /-- "enabled services are active under the recorded profiles" (what a load establishes) is kept by every operation -/
-theorem profilesOK_step {p q : Proj} (h : Partition p) (ok : ProfilesOK p) (o : Op) (hq : applyOp p o = .ok q) :
+theorem profilesOK_step {p q : Proj} (h : Partition p) (nk : NamesOK p) (ok : ProfilesOK p) (o : Op) (hq : applyOp p o = .ok q) :
     ProfilesOK q := by
   cases o with
   | profiles P => cases hq; exact withProfiles_profilesOK h P
@@ -378,7 +380,7 @@ theorem profilesOK_step {p q : Proj} (h : Partition p) (ok : ProfilesOK p) (o : 
       | noSuchService =>
         have : ns.isEmpty = false := by cases ns <;> simp_all
         simp [applyOp, withSelectedServices, hw, this] at hq
-      | outOfFuel => exact absurd hw (forEachService_fuel h.1 ns pol)
+      | outOfFuel => exact absurd hw (forEachService_fuel h.1 nk.services ns pol)
   | prune => cases hq; exact ok
 
 /-- hence by every history -/
@@ -388,7 +390,7 @@ theorem profilesOK_inv {p : Proj} (g : Good p) (ok : ProfilesOK p) (ops : List O
   | cons o os ih =>
     rw [run_cons]
     cases ho : applyOp p o with
-    | ok q => exact ih (partition_step g o ho).1 (profilesOK_step g.1 ok o ho)
+    | ok q => exact ih (partition_step g o ho).1 (profilesOK_step g.1 g.2.2 ok o ho)
     | err => exact ih g ok
     | fuel => exact ih g ok
 
@@ -455,10 +457,11 @@ theorem prune_perm {p p' : Proj} (e : SameProj p p') :
 /-- `WithSelectedServices` (after the `fix:` commit) is a function of the project, the names and the policy:
 whatever the iteration order of the service map, both halves of the result are the same maps.
 (Before the fix only the enabled half was: `Neg/C15.lean`.) -/
-theorem select_perm {p p' : Proj} (h : Partition p) (e : SameProj p p') {names : List String} {pol : Policy}
+theorem select_perm {p p' : Proj} (h : Partition p) (nk : NamesOK p) (e : SameProj p p') {names : List String} {pol : Policy}
     {q q' : Proj} (hq : withSelectedServices p names pol = .ok q) (hq' : withSelectedServices p' names pol = .ok q') :
     LookEq q.services q'.services ∧ LookEq q.disabled q'.disabled ∧ q.profiles = q'.profiles := by
   have h' := partition_perm h e
+  have nk' := namesOK_perm nk e.1 e.2.1
   have es := lookEq_of_perm e.1 h.1
   have ed := lookEq_of_perm e.2.1 h.2.1
   by_cases hn : names = []
@@ -472,7 +475,7 @@ theorem select_perm {p p' : Proj} (h : Partition p) (e : SameProj p p') {names :
         rw [withSelectedServices_ok h'.1 hn hw'] at hq'
         cases hq; cases hq'
         have same : ∀ x, x ∈ set ↔ x ∈ set' := fun x => by
-          rw [forEachService_reach h.1 hn hw, forEachService_reach h'.1 hn hw']
+          rw [forEachService_reach h.1 nk.services hn hw, forEachService_reach h'.1 nk'.services hn hw']
           exact ⟨reach_lookEq es, reach_lookEq (fun k => (es k).symm)⟩
         have un : unselected set p.services = unselected set' p'.services := by
           unfold unselected
@@ -507,18 +510,18 @@ theorem select_perm {p p' : Proj} (h : Partition p) (e : SameProj p p') {names :
         · show (withServicesDisabled p _).profiles = (withServicesDisabled p' _).profiles
           rw [withServicesDisabled_profiles, withServicesDisabled_profiles]; exact e.2.2.1
       | noSuchService => simp [withSelectedServices, hw', ne] at hq'
-      | outOfFuel => exact absurd hw' (forEachService_fuel h'.1 names pol)
+      | outOfFuel => exact absurd hw' (forEachService_fuel h'.1 nk'.services names pol)
     | noSuchService => simp [withSelectedServices, hw, ne] at hq
-    | outOfFuel => exact absurd hw (forEachService_fuel h.1 names pol)
+    | outOfFuel => exact absurd hw (forEachService_fuel h.1 nk.services names pol)
 
 /-- success or failure of `WithSelectedServices` does not depend on the iteration order either -/
 theorem select_perm_outcome {p p' : Proj} (g : Good p) (e : SameProj p p') {names : List String} (hn : names ≠ [])
     (pol : Policy) : withSelectedServices p names pol = .err ↔ withSelectedServices p' names pol = .err := by
   have es := lookEq_of_perm e.1 g.1.1
-  have g' : Good p' := ⟨partition_perm g.1 e, fun kv hkv => g.2 kv (by
+  have g' : Good p' := ⟨partition_perm g.1 e, fun kv hkv => g.2.1 kv (by
     rcases List.mem_append.1 hkv with a | a
     · exact List.mem_append_left _ (e.1.mem_iff.2 a)
-    · exact List.mem_append_right _ (e.2.1.mem_iff.2 a))⟩
+    · exact List.mem_append_right _ (e.2.1.mem_iff.2 a)), namesOK_perm g.2.2 e.1 e.2.1⟩
   have mr : ∀ x, MissingRequired p.services pol x ↔ MissingRequired p'.services pol x := by
     intro x
     unfold MissingRequired
@@ -540,21 +543,21 @@ theorem select_perm_failed_before_fix : ¬Neg.SelectPermInvariant := Neg.select_
 
 /-! ## non-vacuity -/
 
-def exSvc (profiles : List String) (deps : AL Dep) : Svc :=
-  { image := "i", profiles := profiles, deps := deps, nets := ["n"], vols := [("volume", "v")], secrets := [], build := some ["s"], configs := [] }
+def exSvc (name : String) (profiles : List String) (deps : AL Dep) : Svc :=
+  { name := name, image := "i", profiles := profiles, deps := deps, nets := ["n"], vols := [("volume", "v")], secrets := [], build := some ["s"], configs := [] }
 
 def exProj : Proj :=
-  { services := [("web", exSvc [] [("db", ⟨true, "service_started"⟩), ("cache", ⟨false, "service_started"⟩)]),
-                 ("db", exSvc [] []), ("job", exSvc [] [("db", ⟨true, "service_healthy"⟩)])]
-    disabled := [("cache", exSvc ["p"] [])]
+  { services := [("web", exSvc "web" [] [("db", ⟨true, "service_started"⟩), ("cache", ⟨false, "service_started"⟩)]),
+                 ("db", exSvc "db" [] []), ("job", exSvc "job" [] [("db", ⟨true, "service_healthy"⟩)])]
+    disabled := [("cache", exSvc "cache" ["p"] [])]
     profiles := [], networks := [("n", "N"), ("m", "M")], volumes := [("v", "V")], secrets := [("s", "S"), ("t", "T")], configs := [] }
 
-example : Good exProj := ⟨by decide, by decide⟩
+example : Good exProj := ⟨by decide, by decide, by decide⟩
 example : withSelectedServices exProj ["web"] .deps = .ok (selectResult exProj ["db", "web"]) := by decide
 example : keys (selectResult exProj ["db", "web"]).services = ["web", "db"] ∧
     keys (selectResult exProj ["db", "web"]).disabled = ["cache", "job"] := by decide
 example : Reach exProj.services .deps ["web"] "db" :=
-  (forEachService_reach (p := exProj) (by decide) (by decide) (set := ["db", "web"]) (by decide) "db").1 (by decide)
+  (forEachService_reach (p := exProj) (by decide) (fun kv hkv => by revert kv; decide) (by decide) (set := ["db", "web"]) (by decide) "db").1 (by decide)
 example : keys (withServicesEnabled exProj ["cache"]).services = ["web", "db", "job", "cache"] ∧
     (withServicesEnabled exProj ["cache"]).profiles = ["p"] := by decide
 example : keys (withoutUnnecessaryResources exProj).networks = ["n"] ∧
